@@ -377,6 +377,12 @@ fn evaluate_inner(sc: &Scenario, files: &BTreeMap<String, String>, cov: &mut Cov
         cov.hit("tolerated:alias-then-dotdot");
         return EvalOut { verdict: Verdict::discard("known defect avoided: alias component followed by `..`") };
     }
+    // known deviation: in path mode the `sources` of the configuration are looked up before the `.luaurc` aliases (the
+    // documentation, and the luau mode, use the `.luaurc` alias first)
+    if !mode.luau && alias_defined_twice(mode, &sc.project, &MapFs(files), &norm(&sc.requirer), &sc.req) && sc.tolerate.iter().any(|t| t == "path-source-before-luaurc") {
+        cov.hit("tolerated:path-source-before-luaurc");
+        return EvalOut { verdict: Verdict::discard("known defect avoided: alias defined by the configuration and by .luaurc in path mode") };
+    }
     let mut obs = observe_bundle(files, &sc.project, mode, &sc.requirer, root);
     // known defect: an extension-less file chosen as "the given path" makes the bundler panic
     // (`unreachable!("extension should be defined")`).  When tolerated, the panic is read as the
@@ -642,7 +648,7 @@ fn locations(project: &str, dir: &str) -> Vec<String> {
 
 fn build_grid(tier: Tier) -> Vec<Case> {
     let mut out = vec![];
-    let tolerate = json!(["extensionless-panic", "convert-cwd-relative", "convert-short-form-shadowed", "luau-init-at-cwd", "alias-then-dotdot"]);
+    let tolerate = json!(["extensionless-panic", "convert-cwd-relative", "convert-short-form-shadowed", "luau-init-at-cwd", "alias-then-dotdot", "path-source-before-luaurc"]);
     let mut n = 0u64;
     for (ki, project) in ["p", "", "/r/p"].iter().enumerate() {
         for flat in [false, true] {
@@ -691,6 +697,14 @@ fn build_grid(tier: Tier) -> Vec<Case> {
                                 e.insert(rc_root.clone(), Some(luaurc("./lib2")));
                             }
                             variants.push((e, None));
+                            if req.starts_with("@pkg") {
+                                // the same alias in the configuration (-> lib) and in `.luaurc` (-> lib2): the documentation
+                                // loads the `.luaurc` aliases before it looks at the configuration
+                                let mut e = BTreeMap::new();
+                                e.insert(rc_root.clone(), Some("{\"aliases\": {\"pkg\": \"./lib2\"}}".to_string()));
+                                variants.push((e.clone(), None));
+                                variants.push((e, Some(false)));
+                            }
                         }
                         for (extra, use_rc) in variants {
                             let mut m = mode.clone();
@@ -714,6 +728,30 @@ fn build_grid(tier: Tier) -> Vec<Case> {
                         }
                     }
                 }
+            }
+        }
+    }
+    // `..` / `../..`: the designated path is a directory above the requiring file; the candidates are that path with an
+    // extension first, the module-folder file inside it afterwards
+    for project in ["p", ""] {
+        let dir = join(project, "a/d");
+        let locs = vec![norm(&join(&dir, "m"))];
+        let mut modes: Vec<ModeCfg> = vec![];
+        for mfn in ["init", "index"] {
+            let mut m = ModeCfg::path();
+            m.mfn = mfn.to_string();
+            modes.push(m);
+        }
+        modes.push(ModeCfg::luau());
+        for mode in &modes {
+            for (requirer, req) in [("m/t/spec.lua", ".."), ("m/t/u/spec.luau", "../.."), ("m/t/spec.lua", "../."), ("m/t/spec.lua", "../../m"), ("m/t/init.lua", "..")] {
+                let target = if mode.luau { ModeCfg::path() } else { ModeCfg::luau() };
+                // (the bare path `m` itself cannot be a file: it is the directory the requiring file lives in)
+                let masks: Vec<u64> = (0..64).filter(|m| m & 1 == 0).collect();
+                out.push(json!({
+                    "kind": "grid", "fs": false, "project": project, "requirer": join(&dir, requirer), "req": req, "mode": mode.to_json(),
+                    "locs": locs, "masks": masks, "extra": {}, "convert": target.to_json(), "tolerate": tolerate,
+                }));
             }
         }
     }
@@ -746,6 +784,11 @@ fn known_cases() -> Vec<Case> {
     lm.sources.insert("@pkg".into(), "./lib".into());
     v.push(json!({"kind": "known", "fs": false, "project": "", "requirer": "a/d/main.lua", "req": "@pkg/m", "mode": lm.to_json(),
         "locs": ["lib/m"], "masks": [2], "extra": {}, "convert": ModeCfg::path().to_json(), "tolerate": []}));
+    // 7. path mode: an alias defined by the configuration and by `.luaurc`: the `.luaurc` one is documented to be used
+    let mut pm2 = ModeCfg::path();
+    pm2.sources.insert("@pkg".into(), "./lib".into());
+    v.push(json!({"kind": "known", "fs": false, "project": "p", "requirer": "p/a/d/main.lua", "req": "@pkg/m", "mode": pm2.to_json(),
+        "locs": ["p/lib/m", "p/lib2/m"], "masks": [2], "extra": {"p/.luaurc": "{\"aliases\": {\"pkg\": \"./lib2\"}}"}, "convert": null, "tolerate": []}));
     // 6. convert_require: explicit extension dropped, a sibling of higher precedence takes over
     v.push(json!({"kind": "known", "fs": false, "project": "p", "requirer": "p/a/d/main.lua", "req": "./m.lua", "mode": ModeCfg::path().to_json(),
         "locs": ["p/a/d/m"], "masks": [6], "extra": {}, "convert": ModeCfg::luau().to_json(), "tolerate": []}));
@@ -874,7 +917,7 @@ fn random_case(r: &mut Rng) -> Case {
     json!({
         "kind": "random", "fs": fs, "project": project, "requirer": requirer, "req": req, "mode": mode.to_json(),
         "locs": locs, "masks": masks, "extra": extra, "convert": if r.chance(4, 5) { target.to_json() } else { Value::Null },
-        "tolerate": ["extensionless-panic", "convert-cwd-relative", "convert-short-form-shadowed", "luau-init-at-cwd", "alias-then-dotdot"],
+        "tolerate": ["extensionless-panic", "convert-cwd-relative", "convert-short-form-shadowed", "luau-init-at-cwd", "alias-then-dotdot", "path-source-before-luaurc"],
     })
 }
 
@@ -1031,6 +1074,9 @@ fn known_triggers(sc: &Scenario, masks: &[u64], convert: bool) -> Vec<&'static s
     }
     if alias_then_parent(&sc.req) {
         t.push("alias-then-dotdot");
+    }
+    if !sc.mode.luau && alias_defined_twice(&sc.mode, &sc.project, &MapFs(&files), &norm(&sc.requirer), &sc.req) {
+        t.push("path-source-before-luaurc");
     }
     if sc.mode.luau {
         if let Head::ConfigAlias(n, _) = &res.head {
